@@ -10,8 +10,8 @@ from ..models import msmref as mr
 
 ID = 'C04'
 POISON_WORD = 0x7ff8000000000000   # NaN
-RULE = ('count matrices: all n=2 over {0..3}, all n=3 over {0,1,2} (T: + n=3 over {0,1,5}, n=4 binary off-diagonal with '
-        'diagonal in {0,2}) with every row having outgoing counts x containers {ndarray,csr,csc,coo,lil,dok,dia,bsr}_matrix '
+RULE = ('count matrices: all n=2 over {0..3}, all n=3 over {0,1,2}, a 1/23 sample of n=4 binary patterns (T: + n=3 over {0,1,5}, n=4 binary off-diagonal with '
+        'diagonal in {0,2}) with every row having outgoing counts x containers {ndarray,csr,csc,coo,lil,dok,dia,bsr (single block and multi-block)}_matrix '
         'x prior_counts {None,1,0.5} x calculate_eq_probs {T,F}; on every 3rd matrix additionally float64/int32 counts, '
         'Fortran-ordered and transposed-view dense input, and a second call on the same caller object; x builders {normalize,transpose,mle (mle: strongly '
         'connected only, all containers on every 5th matrix; Q: normalize/transpose use all 8 containers on every 4th '
@@ -24,7 +24,7 @@ ASSUMPTIONS = ['tolerances: row sums 1e-12, detailed balance / stationarity 1e-9
 GUARDS = {'float_counts': 500, 'dense_layouts': 200, 'sparse_in': 1000, 'prior': 1000, 'strongly_connected': 1000, 'not_strongly_connected': 100,
           'mle_sparse': 100, 'eq_off': 1000}
 NSH = {'quick': 64, 'thorough': 256}
-CONTAINERS = ('ndarray', 'csr', 'csc', 'coo', 'lil', 'dok', 'dia', 'bsr')
+CONTAINERS = ('ndarray', 'csr', 'csc', 'coo', 'lil', 'dok', 'dia', 'bsr', 'bsrblocks')
 PRIORS = (None, 1, 0.5)
 
 
@@ -34,6 +34,17 @@ def matrices(tier):
         out.append(C)
     for C in mr.all_matrices(3, (0, 1, 2)):
         out.append(C)
+    import itertools
+    if tier == 'quick':
+        k = 0
+        for off in itertools.product((0, 1), repeat=12):
+            k += 1
+            if k % 23:
+                continue
+            C = np.zeros((4, 4), dtype=int)
+            C[~np.eye(4, dtype=bool)] = off
+            C[np.diag_indices(4)] = (2, 0, 1, 0)
+            out.append(C)
     if tier == 'thorough':
         for C in mr.all_matrices(3, (0, 1, 5)):
             if (C == 5).any():
@@ -60,6 +71,9 @@ def wrap(C, cont, dtype='int64'):
         return np.asfortranarray(C)
     if cont == 'ndarrayT':
         return np.ascontiguousarray(C.T).T       # non-owning transposed view
+    if cont == 'bsrblocks':                       # several blocks (scipy's default picks one n x n block for small n)
+        n = len(C)
+        return sp.bsr_matrix(C, blocksize=(2, 2) if n % 2 == 0 and n > 2 else (1, 1))
     return getattr(sp, cont + '_matrix')(C)
 
 
@@ -201,7 +215,7 @@ def run_shard(sh, ctx):
         for bname in ('normalize', 'transpose', 'mle'):
             for cont in CONTAINERS:
                 if tier == 'quick' and bname != 'mle' and cont not in ('ndarray', 'csr', 'lil') \
-                        and (j // NSH[tier]) % 4 != 0:
+                        and (j // NSH[tier]) % 4 != 0 and not (cont == 'bsrblocks' and len(C) == 4):
                     continue
                 if bname == 'mle':
                     if not sc0:
